@@ -967,7 +967,7 @@ func (h *Heap) apply(op *HOp) (string, error) {
 				return "[null]", nil
 			}
 			last := items[len(items)-1].V
-			v.Arr.Items = items[:len(items)-1:len(items)-1]
+			v.Arr.Items = items[: len(items)-1 : len(items)-1]
 			return "[" + last.canon() + "]", nil
 		case "popfirst":
 			if len(items) == 0 {
